@@ -42,6 +42,7 @@ pub struct Emphasis {
     pub pool_ops: u64, // weight of swap/deposit/withdraw
     pub stake_ops: u64,
     pub mint_ops: u64,
+    pub batches: u64, // up to this many extra batches per block
     pub blocks: u64,   // blocks per history
     pub chain_ops: bool,
 }
@@ -589,7 +590,8 @@ pub fn rand_fab(r: &mut Rng, wallet: &mut Wallet) -> FabSpec {
         height,
         fee_pool: *r.pick(&[0u128, 1 << 16, 6553600000000, 1 << 100]),
         fee_multiplier: *r.pick(&[0u128, 1, 100, 65536, 1_000_000, 1 << 40]),
-        dosc_speed: 1_000_000 + r.below(100) as u128,
+        // small speeds make rewards non-zero at the small difficulties proofs can be generated for
+        dosc_speed: if r.chance(1, 2) { 1 + r.below(40) as u128 } else { 1_000_000 + r.below(100) as u128 },
         coins,
         pools,
         stakes,
@@ -642,7 +644,7 @@ pub fn history(r: &mut Rng, w: &mut World, out: &mut Out, em: &Emphasis, stats: 
         }
     }
     for _b in 0..em.blocks {
-        let nb = 1 + r.below(3);
+        let nb = 1 + r.below(3 + em.batches);
         for _ in 0..nb {
             let (txs, label) = h.gen_batch(r, &unsealed, em);
             if let Some(next) = h.op_batch(&unsealed, &txs, &label) {
